@@ -85,6 +85,11 @@ NATIVE = [
     ("Duration", [rec(("secs", "nat64"), ("nanos", "nat32"))], {}, "duration"),
     ("(u8, String, bool)", [rec((0, "nat8"), (1, "text"), (2, "bool"))], {}, None),
     ("HashMap<u8, u8>", [("vec", rec((0, "nat8"), (1, "nat8")))], {}, "map"),
+    # derived newtype structs around fixed-width primitives, inside vectors / arrays (the primitive-vector window, repair D14)
+    ("Vec<Millis(u64)>", [("vec", "nat64")], {}, None),
+    ("Vec<Flag(bool)>", [("vec", "bool")], {}, None),
+    ("[Millis(u64); 2]", [("vec", "nat64")], {}, ("array", {0: 2})),
+    ("Vec<Wrap2(Millis(u64))>", [("vec", "nat64")], {}, None),
 ]
 
 
